@@ -268,3 +268,26 @@ Print Assumptions C12_omp_static_exactly_once.
 
 Example C12_omp_static_example : omp_static 7 3 = [[0; 1; 2]; [3; 4]; [5; 6]] /\ omp_thread_of 7 3 4 = 1 /\ omp_static 2 4 = [[0]; [1]; []; []].
 Proof. repeat split; reflexivity. Qed.
+
+(* (xvi) Biases with private accumulated state (metadynamics hills, OPES kernels, ABF samples, moving centres ...): an item that
+   reads its variables' values and its OWN state and writes its own energy, forces and state.  Any mixture of such biases and of
+   stateless ones, in any order of the bias loop, gives the same store.  The footprints derived from the binary for every bias
+   kind (private state restored from a binary state buffer before every run of the probe) are checked against this shape on
+   every run (C12_gen_rich_items_independent), and the check runs every kind paired with a restraint whose energy varies, with the
+   bias first and last in the executed order. *)
+Theorem C12_mixed_bias_loop_order_independent : forall (stateful : nat -> bool) (abs : list (nat * bias)) (ob : list nat) (s : store),
+  NoDup (map fst abs) -> Permutation ob (seq 0 (length abs)) ->
+  forall l, run loc_eqb (pick (map (any_bias_item stateful) abs) ob) s l = run loc_eqb (map (any_bias_item stateful) abs) s l.
+Proof. exact mixed_bias_loop_order_independent. Qed.
+Print Assumptions C12_mixed_bias_loop_order_independent.
+
+(* FULL STATEMENT for a bias that adds the other biases' energies to what it deposits (false): forall orders, same store.
+   Such an item reads what another item of the same loop writes: it is not independent of it and the two orders differ. *)
+Theorem C12_extra_bias_read_refuted :
+  let opes := extra_bias_item [1] (0, mkBias 1 [0] 1 [0%Z]) in
+  let harm := bias_item (1, mkBias 1 [0] 2 [0%Z]) in
+  let s0 : store := fun l => match l with LX 0 => 3%Z | _ => 0%Z end in
+  ~ indep harm opes /\
+  run loc_eqb [opes; harm] s0 (LBiasState 0) = 3%Z /\ run loc_eqb [harm; opes] s0 (LBiasState 0) = 21%Z.
+Proof. exact extra_bias_order_dependent. Qed.
+Print Assumptions C12_extra_bias_read_refuted.
